@@ -1175,6 +1175,28 @@ pub fn generate(name: &str, count: usize, rng: &mut Rng, sink: &mut dyn FnMut(Se
                 sink(Session { sid: format!("known-{}", i), tag: json!({"g": "known"}), chunks, huge: None, consume: false, inplace: false, prelude: Vec::new() });
             }
         }
+        // a multi-byte character of every width (2, 3, 4 bytes) starting at every offset 100..=110,
+        // with no CR at all / a CRLF right after it / a CRLF far behind it / the line cut right after it
+        "v1straddle" => {
+            let chars = ["\u{e9}", "\u{20ac}", "\u{1F600}"];
+            let mut combos: Vec<(usize, usize, usize)> = Vec::new();
+            for w in 0..3usize { for o in 100..=110usize { for tail in 0..4usize { combos.push((w, o, tail)); } } }
+            for i in 0..count.min(combos.len()) {
+                let (w, o, tail) = combos[i];
+                let mut bytes = if i % 2 == 0 { b"PROXY UNKNOWN ".to_vec() } else { b"PROXY TCP4 1.2.3.4 ".to_vec() };
+                while bytes.len() < o { bytes.push(b'a' + (bytes.len() % 23) as u8); }
+                bytes.extend_from_slice(chars[w].as_bytes());
+                match tail {
+                    0 => {}
+                    1 => bytes.extend_from_slice(b"\r\n"),
+                    2 => { bytes.extend_from_slice(b"bcdefghijklmnop\r\nGET"); }
+                    _ => { bytes.extend_from_slice(b"xyz"); }
+                }
+                let n = bytes.len();
+                let chunks = if i % 3 == 0 { vec![bytes.clone()] } else { split_at(&bytes, &[o - 1, o, o + 1, o + 2, o + 3, o + 4, n - 1]) };
+                sink(Session { sid: format!("v1straddle-{}", i), tag: json!({"g": "v1straddle"}), chunks, huge: None, consume: false, inplace: false, prelude: Vec::new() });
+            }
+        }
         // arbitrary bytes over small alphabets, incl. multi-byte characters next to CR
         "v1junk" => {
             let pieces: [&[u8]; 14] = [b"P", b"PROXY", b" ", b"\r", b"\n", "\u{e9}".as_bytes(), "\u{20ac}".as_bytes(), "\u{1F600}".as_bytes(), b"UNKNOWN", b"TCP4", b"1", b"\xff", b"\x00", b"::"];
